@@ -246,25 +246,31 @@ func init() {
 			op            string
 			d, p, len, gg int
 			odd           bool
+			wide          bool // many input shards: kernel granularity only, at most one preemption
 		}
 		// (workers x kernel calls): workers = ceil(len/16) capped by g; kernel calls per worker = p_out * d_in
 		quick := []sc{
-			{"encode", 2, 2, 32, 2, false},      // 2 workers x 4 kernel calls
-			{"encode", 2, 2, 48, 3, false},      // 3 x 4
-			{"encode", 2, 1, 64, 4, false},      // 4 x 2
-			{"encode", 4, 2, 30, 2, false},      // 2 x 8, last chunk shorter than 16
-			{"reconstruct", 2, 2, 32, 2, false}, // 2 x 4
-			{"reconstruct", 3, 2, 44, 2, false}, // 2 x 6, length not divisible
-			{"reconstruct", 2, 1, 50, 4, false}, // 4 x 2, short last chunk
+			{"encode", 2, 2, 32, 2, false, false},      // 2 workers x 4 kernel calls
+			{"encode", 2, 2, 48, 3, false, false},      // 3 x 4
+			{"encode", 2, 1, 64, 4, false, false},      // 4 x 2
+			{"encode", 4, 2, 30, 2, false, false},      // 2 x 8, last chunk shorter than 16
+			{"reconstruct", 2, 2, 32, 2, false, false}, // 2 x 4
+			{"reconstruct", 3, 2, 44, 2, false, false}, // 2 x 6, length not divisible
+			{"reconstruct", 2, 1, 50, 4, false, false}, // 4 x 2, short last chunk
 			// input shards displaced to odd addresses inside larger buffers
-			{"encode", 2, 2, 32, 2, true},
-			{"reconstruct", 2, 2, 32, 2, true},
+			{"encode", 2, 2, 32, 2, true, false},
+			{"reconstruct", 2, 2, 32, 2, true, false},
+			// more than 128 input shards, shards shorter than 16 bytes per requested goroutine (any path that splits the
+			// work by input shard instead of by byte range shows up as conflicting kernel access sets)
+			{op: "encode", d: 129, p: 1, len: 4, gg: 2, wide: true},
+			{op: "encode", d: 130, p: 2, len: 20, gg: 3, wide: true},
+			{op: "reconstruct", d: 129, p: 2, len: 36, gg: 4, wide: true},
 		}
 		thorough := []sc{
-			{"encode", 5, 1, 48, 3, false}, // 3 x 5   (18!/(6!)^3 = 17.2 M interleavings)
-			{"encode", 3, 1, 64, 4, false}, // 4 x 3   (16!/(4!)^4 = 63.1 M)
+			{"encode", 5, 1, 48, 3, false, false}, // 3 x 5   (18!/(6!)^3 = 17.2 M interleavings)
+			{"encode", 3, 1, 64, 4, false, false}, // 4 x 3   (16!/(4!)^4 = 63.1 M)
 
-			{"encode", 2, 2, 34, 7, false}, // g > number of 16-byte units
+			{"encode", 2, 2, 34, 7, false, false}, // g > number of 16-byte units
 		}
 		list := quick
 		if g.Thorough() {
@@ -272,6 +278,9 @@ func init() {
 		}
 		for _, s := range list {
 			for _, gran := range []string{"kernel", "stmt"} {
+				if s.wide && gran == "stmt" {
+					continue
+				}
 				bound := -1
 				split := 6
 				if g.Thorough() {
@@ -283,6 +292,9 @@ func init() {
 						bound = 3
 					}
 					split = 12
+				}
+				if s.wide {
+					bound, split = 1, 3
 				}
 				c := &c12Case{Kind: "sched", Op: s.op, D: s.d, P: s.p, Len: s.len, G: s.gg, Gran: gran, Bound: bound, Split: split, Odd: s.odd}
 				cfg := newSchedCfg(c, g.Seed)
